@@ -5,12 +5,16 @@
 (*   inm_p, inm, im_p, im, ims_p, ims, ifr_p, ifr, range_p, range   (header present / text),     *)
 (*   etag_p, etag_opaque, etag_weak, lm_p, lm: <<Y, M, D, h, m, s, us>>, len_known,              *)
 (*   status, exc, cr_n, cr, cl_n, cl, r_etag_n, r_etag, r_lm_n, r_lm, body, modified]            *)
+(* Lines with op "file" (FileValidators.tla, clauses "File/..") are requests against real files,   *)
+(* lines with op "etag" (clauses "EtagApi/..") exercise add_etag / set_etag / get_etag / freeze.   *)
+(* Lines with op "rc" combine Range with If-None-Match / If-Modified-Since / If-Match: judged by *)
+(* VerdictRC, clauses prefixed "RangeCond/".                                                      *)
 (* The judge parses the header texts itself (Conditional.tla) and names the violated clause:     *)
 (* Raised, Sound304, Complete304, Sound412, Is416, Only416, FullOn200/.., RangeInsideResource,   *)
 (* RangeInsideRequest, RangeBodyMatchesHeader/.., UnexpectedStatus; OutOfDomain is a harness     *)
 (* error, never a verdict.  Drift records (never verdicts): a satisfiable range answered by the  *)
 (* complete 200 body although the length was known; a 206 narrower than the satisfiable range.   *)
-EXTENDS Conditional, TLC, Json, IOUtils
+EXTENDS FileValidators, TLC, Json, IOUtils
 
 Lines == ndJsonDeserialize(IOEnv.TRACE_FILE)
 
@@ -25,13 +29,26 @@ ObsOf(ln) == [status |-> ln.status, exc |-> ln.exc, cr_n |-> ln.cr_n, cr |-> ln.
 
 JVerdict(ln) ==
   LET req == ReqOf(ln) rep == RepOf(ln) IN
-  IF ~(ln.api \in {"mc", "sf", "irm"}) \/ ~InDomain(req, rep) \/ Len(ln.lm) # 7 THEN "OutOfDomain"
+  IF ln.op = "file" THEN
+     (IF ~FileInDomain(ln) THEN "OutOfDomain"
+      ELSE LET v == VerdictFile(ln) IN IF v = "ok" THEN "ok" ELSE "File/" \o v)
+  ELSE IF ln.op = "etag" THEN
+     (LET v == VerdictEtagApi(ln) IN IF v = "ok" THEN "ok" ELSE "EtagApi/" \o v)
+  ELSE IF ln.op = "rc" THEN
+     (IF ~(ln.api \in {"mc", "sf"}) \/ ~InDomainRC(req, rep) \/ Len(ln.lm) # 7 THEN "OutOfDomain"
+      ELSE LET v == VerdictRC(req, rep, ObsOf(ln)) IN IF v = "ok" THEN "ok" ELSE "RangeCond/" \o v)
+  ELSE IF ~(ln.api \in {"mc", "sf", "irm"}) \/ ~InDomain(req, rep) \/ Len(ln.lm) # 7 THEN "OutOfDomain"
   ELSE IF ln.api = "irm" THEN (IF ln.exc # "" THEN "Raised" ELSE VerdictIRM(req, rep, ln.modified))
   ELSE Verdict(req, rep, ObsOf(ln))
 
 Drift(ln) ==
   LET req == ReqOf(ln) rep == RepOf(ln) IN
-  IF ln.api = "irm" \/ ~InDomain(req, rep) \/ ~(ln.method \in {"GET", "HEAD"}) \/ ~ln.range_p THEN ""
+  IF ln.op = "file" THEN (IF FileInDomain(ln) THEN FileDrift(ln) ELSE "")
+  ELSE IF ln.op = "etag" THEN ""
+  ELSE IF ln.op = "rc" THEN
+     (IF InDomainRC(req, rep) /\ ln.method \in {"GET", "HEAD"} /\ May412(req, rep) /\ ln.status \in {200, 206, 416}
+      THEN "failed If-Match with Range answered by 200 / 206 / 416 instead of 412" ELSE "")
+  ELSE IF ln.api = "irm" \/ ~InDomain(req, rep) \/ ~(ln.method \in {"GET", "HEAD"}) \/ ~ln.range_p THEN ""
   ELSE LET rc == RangeClass(req, rep)
            ifr == IF ln.ifr_p THEN IfRange(req, rep) ELSE "pass" IN
        IF rc.c = "sat" /\ ifr = "pass" /\ ln.status = 200
@@ -62,7 +79,7 @@ Next == /\ l <= Len(Lines)
                d == IF v = "ok" THEN Drift(ln) ELSE "" IN
            /\ IF v = "ok" THEN TRUE
               ELSE PrintT(ToJson([reject |-> 1, t |-> ln.t, i |-> ln.i, clause |-> v,
-                                  info |-> IF v = "OutOfDomain" THEN [range |-> "-"] ELSE Info(ln)]))
+                                  info |-> IF v = "OutOfDomain" \/ ln.op = "etag" THEN [range |-> "-"] ELSE Info(ln)]))
            /\ IF d = "" THEN TRUE
               ELSE PrintT(ToJson([drift |-> 1, t |-> ln.t, what |-> d]))
         /\ l' = l + 1
